@@ -229,6 +229,11 @@ impl State {
 //@use corewords.fns State::load_core#w_unbox
 
 //@use corewords.fns State::load_core#w_slice
+//@use corewords.fns State::load_core#w_println
+//@use corewords.fns State::load_core#w_print
+//@use corewords.fns State::load_core#w_newline
+//@use corewords.fns State::load_core#w_str_tonumber
+//@use corewords.fns State::load_core#w_error
 
 //@use coll.fns ::let_map_begin
 //@use coll.fns ::let_map_end
@@ -282,6 +287,24 @@ impl State {
 //@use coll.fns ::update_fmt_tags
 //@use coll.fns ::update_fmt_upcase
 //@use coll.fns ::core_word_error
+// printing changes the interception buffer only: whatever the undo log relates stays related
+proof fn lemma_rev_stdout(a: State, mid: State, fin: State, n: nat)
+    requires rev_w(&a, &mid, n), rev_ext(&a, &mid, n), fin == (State { stdout: fin.stdout, ..mid })
+    ensures rev_w(&a, &fin, n), rev_ext(&a, &fin, n)
+{
+    assert(fin.mach() == mid.mach() && fin.log() == mid.log() && fin.bases() == mid.bases() && fin.rec() == mid.rec());
+    assert forall|b: State, k: nat| #[trigger] rev_w(&b, &a, k) implies rev_w(&b, &fin, k + n) by {
+        assert(rev_w(&b, &mid, k + n));
+    }
+}
+// the process's stdout (src/file.rs): ASSUMED to return some result
+#[verifier::external_body] fn verif_write_to_stdout(msg: &str) -> Xresult { unimplemented!() }
+impl State {
+//@use coll.fns State::print
+}
+//@use coll.fns ::core_word_print
+//@use coll.fns ::core_word_newline
+//@use coll.fns ::core_word_println
 
 } // verus!
 fn main() {}
